@@ -35,6 +35,11 @@ def NList(elem):
     return ("list", elem, True)
 
 
+def Dict(key, val):
+    """a python dict with keys of sort key (STR or an Int-like sort) and values of sort val; term: Int (object id)"""
+    return ("dict", key, val)
+
+
 def Opt(inner):
     return ("opt", inner)
 
@@ -66,7 +71,7 @@ def is_list(s):
 
 def is_intlike(s):
     """sorts whose z3 term is an Int"""
-    return s[0] in ("int", "ref", "list", "enum", "opq", "senum")
+    return s[0] in ("int", "ref", "list", "enum", "opq", "senum", "dict")
 
 
 def nullable(s):
